@@ -1,6 +1,7 @@
 CONSTANTS
   Dev = {}
   MaxLen = 8
+  Deep32 = FALSE
   MaxOct = 6
 SPECIFICATION Spec
 INVARIANT MachineEqualsFunction
@@ -9,5 +10,6 @@ INVARIANT PushErrImpliesReject
 INVARIANT ChunkingIrrelevant
 INVARIANT RoundTrip
 INVARIANT ProbeLaw
+INVARIANT EncProbeLaw
 PROPERTY ErrorsSticky
 CHECK_DEADLOCK FALSE
